@@ -784,6 +784,7 @@ func runC19(c *Ctx) {
 	ruleAcceptLoops(c, "R19.c")
 	ruleLoopExitIsFunctionExit(c, "R19.d")
 	ruleStopSweep(c, "R19.e")
+	ruleNoLockAcrossBlocking(c, buildSyncModel(c), "R19.f")
 	c.assume("a peer that stops reading keeps the goroutine blocked in Write until it goes away (no write deadline exists); not a leak once the peer is gone")
 }
 
